@@ -39,6 +39,29 @@ fn emit(out: &mut Vec<Value>, scen: u64, name: &str, sec: &Secrets) {
     out.push(json!({"ev": "Disarm", "scen": scen, "frees": evs.len(), "total": alloc::total_frees()}));
 }
 
+/// like `emit`, for long scenarios: runs of releases that held no secret are logged as one `Frees` event
+fn emit_compact(out: &mut Vec<Value>, scen: u64, name: &str, sec: &Secrets) {
+    let evs = alloc::events();
+    assert!(alloc::total_frees() <= alloc::MAX_EVENTS, "allocator log overflow");
+    out.push(json!({"ev": "Arm", "scen": scen, "scenario": name, "secrets": sec.names}));
+    let mut run = 0usize;
+    for (size, mask) in &evs {
+        if *mask == 0 {
+            run += 1;
+        } else {
+            if run > 0 {
+                out.push(json!({"ev": "Frees", "scen": scen, "count": run}));
+                run = 0;
+            }
+            out.push(json!({"ev": "Free", "scen": scen, "size": size, "taint": sec.taint_names(*mask)}));
+        }
+    }
+    if run > 0 {
+        out.push(json!({"ev": "Frees", "scen": scen, "count": run}));
+    }
+    out.push(json!({"ev": "Disarm", "scen": scen, "frees": evs.len(), "total": alloc::total_frees()}));
+}
+
 /// run `f` with the allocator armed for the given secrets
 fn armed<T>(sec: &Secrets, f: impl FnOnce() -> T) -> T {
     alloc::set_patterns(&sec.pats);
@@ -161,6 +184,79 @@ pub fn run(seed: u64, full: bool) -> (Vec<Value>, u64) {
                     drop(blinds);
                 }
             }
+        }
+    }
+    // ---- (f) a worker thread's whole life: prove with a seed, recover, drop everything, END - what the thread leaves behind
+    // (thread-local buffers) is released when it ends, while the allocator is still armed
+    for &t in &[1usize, 3] {
+        let pc = create_pedersen_gens_with_extension_degree(ExtensionDegree::try_from(t).unwrap());
+        let params = RangeParameters::<P>::init(8, 1, pc).unwrap();
+        let blinds: Vec<Scalar> = (0..t).map(|k| hash_scalar(&[b"mem-thread-blind", &seed.to_le_bytes(), &(t as u64).to_le_bytes(), &(k as u64).to_le_bytes()])).collect();
+        let seed_sc = hash_scalar(&[b"mem-thread-seed", &seed.to_le_bytes(), &(t as u64).to_le_bytes()]);
+        let c = params.pc_gens().commit(&Scalar::from(99u64), &blinds).unwrap();
+        let mut sec = Secrets { names: vec!["seed".into()], pats: vec![seed_sc.as_bytes().to_vec()] };
+        for (k, b) in blinds.iter().enumerate() {
+            sec.names.push(format!("blinding[0][{}]", k));
+            sec.pats.push(b.as_bytes().to_vec());
+        }
+        let (p2, b2) = (params.clone(), blinds.clone());
+        // (the closure handed to the thread is a heap block of the harness: it must not hold the seed itself)
+        let seed_ref: &'static Scalar = Box::leak(Box::new(seed_sc));
+        armed(&sec, || {
+            std::thread::spawn(move || {
+                let stmt = RangeStatement::init(p2, vec![c], vec![Some(1)], Some(*seed_ref)).unwrap();
+                let w = RangeWitness::init(vec![CommitmentOpening::new(99, b2)]).unwrap();
+                let mut ext = RngModel::new("chacha", 4242);
+                let proof = RangeProof::<P>::prove_with_rng(&mut Transcript::new(b"bppv mem"), &stmt, &w, &mut ext).expect("honest prove");
+                drop(w);
+                for action in [VerifyAction::RecoverAndVerify, VerifyAction::RecoverOnly] {
+                    let r = RangeProof::<P>::verify_batch(&mut [Transcript::new(b"bppv mem")], std::slice::from_ref(&stmt), std::slice::from_ref(&proof), action);
+                    assert!(r.is_ok());
+                    drop(r);
+                }
+                drop(stmt);
+            })
+            .join()
+            .expect("worker thread");
+        });
+        emit_compact(&mut out, scen, &format!("worker thread life t={}", t), &sec);
+        scen += 1;
+    }
+    // ---- (g) a batch above the chunk limit mixing aggregation factors, some statements carrying a seed; every mode
+    // (the unoptimised build needs over a minute for it: there only in the thorough tier)
+    if full || !cfg!(debug_assertions) {
+        let nb = 258usize;
+        let pc = create_pedersen_gens_with_extension_degree(ExtensionDegree::DefaultPedersen);
+        let params = RangeParameters::<P>::init(2, 2, pc).unwrap();
+        let mut stmts = vec![];
+        let mut proofs = vec![];
+        let mut sec = Secrets { names: vec![], pats: vec![] };
+        for i in 0..nb {
+            let m = 1 + i % 2;
+            let bl: Vec<Vec<Scalar>> = (0..m).map(|j| vec![hash_scalar(&[b"mem-big-blind", &seed.to_le_bytes(), &(i as u64).to_le_bytes(), &(j as u64).to_le_bytes()])]).collect();
+            let cs: Vec<P> = (0..m).map(|j| params.pc_gens().commit(&Scalar::from((i + j) as u64 % 4), &bl[j]).unwrap()).collect();
+            let sd = if m == 1 && i % 64 == 0 { Some(hash_scalar(&[b"mem-big-seed", &seed.to_le_bytes(), &(i as u64).to_le_bytes()])) } else { None };
+            if let Some(s) = &sd {
+                sec.names.push(format!("seed of statement {}", i));
+                sec.pats.push(s.as_bytes().to_vec());
+            }
+            let stmt = RangeStatement::init(params.clone(), cs, vec![None; m], sd).unwrap();
+            let w = RangeWitness::init((0..m).map(|j| CommitmentOpening::new((i + j) as u64 % 4, bl[j].clone())).collect()).unwrap();
+            let mut ext = RngModel::new("chacha", 9000 + i as u64);
+            proofs.push(RangeProof::<P>::prove_with_rng(&mut Transcript::new(b"bppv mem"), &stmt, &w, &mut ext).expect("honest prove"));
+            stmts.push(stmt);
+        }
+        for (action, name) in [(VerifyAction::VerifyOnly, "verify"), (VerifyAction::RecoverAndVerify, "verify+recover"), (VerifyAction::RecoverOnly, "recover only")] {
+            let mut trs = vec![Transcript::new(b"bppv mem"); nb];
+            let ok = armed(&sec, || {
+                let r = RangeProof::<P>::verify_batch(&mut trs, &stmts, &proofs, action);
+                let ok = r.is_ok();
+                drop(r);
+                ok
+            });
+            assert!(ok, "honest batch");
+            emit_compact(&mut out, scen, &format!("batch of {} mixed members, {}", nb, name), &sec);
+            scen += 1;
         }
     }
     (out, scen)
